@@ -2,7 +2,11 @@
 
 Correspondence K1 (results + whole-state digest after every call) of the
 operations the statement names, against DC.Model.Cache; the theorems about that
-model are listed in lean/properties.json under C03."""
+model are listed in lean/properties.json under C03 — among them the refinement
+`run_refines`: for every history of key-addressed calls the model returns what
+the reference dictionary DC.Spec returns.  The REAL code's results are compared
+with that Lean dictionary directly as well (`sop` lines), on histories inside
+the theorem's regime (policy none, clocks that never go back)."""
 import gen
 from props import base, refdict
 
@@ -47,6 +51,55 @@ def exhaustive_small(rng, n_ops):
     return hists
 
 
+SPEC_OPS = {'set', 'add', 'get', 'getitem', 'read', 'contains', 'touch', 'incr', 'pop', 'delete', 'delitem',
+            'clear', 'evict', 'expire', 'cull'}
+SPEC_UNDETERMINED = {'clear', 'evict', 'expire', 'cull'}      # their integer results count stored rows
+
+
+def spec_history(rng, length):
+    """a history inside the regime of the refinement theorem DC.Cache.run_refines: policy 'none'
+    (nothing is evicted by size), key-addressed calls and bulk removals, clocks that never go back"""
+    h = gen.gen_history(rng, length, 'noblocks')
+    h['cfg']['policy'] = 'none'
+    h['ops'] = [op for op in h['ops'] if op['m'] in SPEC_OPS]
+    h['state_every'] = 0
+    return h
+
+
+def against_spec(hists, impl_out):
+    """the results of the REAL code against the executable reference dictionary DC.Spec (Lean): the
+    same lines, `op` -> `sop`.  -> (number of results compared, [violation])"""
+    import corr
+    lines, index = [], []
+    for i, (h, io) in enumerate(zip(hists, impl_out)):
+        for j, (line, ans) in enumerate(io):
+            if line.startswith('cfg '):
+                lines.append(line)
+                index.append(None)
+            elif line.startswith('op '):
+                lines.append('sop ' + line[3:])
+                index.append((i, j))
+    got = corr.run_driver(lines)
+    out, compared = [], 0
+    seen = set()
+    for (ij, l, g) in zip(index, lines, got):
+        if ij is None:
+            continue
+        i, j = ij
+        if i in seen:
+            continue
+        want = impl_out[i][j][1].split(' | ')[0]
+        m = base.line_field(l, 'm')
+        if m in SPEC_UNDETERMINED:
+            continue
+        compared += 1
+        if g != want:
+            seen.add(i)
+            nth = sum(1 for (l2, _) in impl_out[i][:j] if l2.startswith('op '))
+            out.append({'history': i, 'op_index': nth, 'line': l, 'impl': want, 'spec': g})
+    return compared, out
+
+
 def run(tier, seed, rng, known, replay):
     if replay:
         return base.replay_file(replay, 'C03', ('result', 'state'), acceptor)
@@ -62,15 +115,32 @@ def run(tier, seed, rng, known, replay):
         hists += exhaustive_small(rng, 2)
     r = base.check_histories('C03', hists, ('result', 'state'), acceptor=acceptor, known=known)
     dist, distinct = base.op_distribution(hists, r['impl_out'])
+    # the real code against the Lean reference dictionary (the specification side of run_refines)
+    n_spec = 200 if tier == 'quick' else 3000
+    shists = [spec_history(rng, rng.choice([12, 30, 60, 150])) for _ in range(n_spec)]
+    rs = base.check_histories('C03', shists, ('result', 'state'), acceptor=acceptor, known=known)
+    compared, bad = against_spec(shists, rs['impl_out'])
+    violations = list(r['violations']) + list(rs['violations'])
+    for b in bad[:2]:
+        h = shists[b['history']]
+        what = 'call #%d %s returns %s, the reference dictionary DC.Spec returns %s' % (
+            b['op_index'], b['line'][:90], b['impl'][:60], b['spec'][:60])
+        violations.append({'replay': {'property': 'C03', 'kind': 'spec-disagreement', 'cfg': h['cfg'], 'ops': base.tag(h['ops'][:b['op_index'] + 1]),
+                                      'line': b['line'], 'impl': b['impl'], 'spec': b['spec'], 'acceptor': what,
+                                      'spec_part': 'DC.Spec.step (lean/DC/Model/Spec.lean); refinement theorem DC.Cache.run_refines'},
+                           'found_input': True, 'what': 'property violated on the implementation: ' + what})
+    r['violations'] = violations[:4]
+    r['known'] = list(r['known']) + [k for k in rs['known'] if k not in r['known']]
+    hists = hists + shists
     return {
         'evaluations': sum(len(h['ops']) for h in hists),
         'distinct_nontrivial': distinct,
         'rule': 'seeded random call histories (lengths 12-400, tables beyond the 100-row page) over the methods C03 names, '
-                'plus every sequence of %d calls over an 11-call alphabet; distinct = distinct (method, result, action trace) triples'
+                'plus every sequence of %d calls over an 11-call alphabet; plus policy-none histories whose results are also compared with the executable reference dictionary DC.Spec (the specification of theorem run_refines); distinct = distinct (method, result, action trace) triples'
                 % (3 if exhaustive else 2),
         'samples': [base.sample(hists[0], r['impl_out'][0]), base.sample(hists[-1], r['impl_out'][-1])],
         'traces': len(hists),
-        'dist': dict(dist, histories=len(hists), divergent=r['divergent'], timing=r['stats']),
+        'dist': dict(dist, histories=len(hists), divergent=r['divergent'] + rs['divergent'], timing=r['stats'], spec_histories=len(shists), results_compared_with_lean_spec=compared, spec_disagreements=len(bad)),
         'violations': r['violations'], 'known': r['known'],
     }
 
